@@ -23,7 +23,9 @@ package main
 import (
 	"bytes"
 	"encoding/hex"
+	"encoding/json"
 	"fmt"
+	"io/ioutil"
 	"math/big"
 	"math/rand"
 	"os"
@@ -64,6 +66,9 @@ func hx(b []byte) string { return hex.EncodeToString(b) }
 func main() {
 	fix.Quiet()
 	r = vf.Start("C10", "exploration")
+	if p := r.ReplayPath(); p != "" {
+		replay(p)
+	}
 	legProducer()
 	legVerifier()
 	legDirected()
@@ -915,7 +920,7 @@ func (lc *laneCtx) run(perLane, bodyBits int) {
 			hours += a.Uint64()
 		}
 		var touts []coin.TransactionOutput
-		if shape[1] == 1 {
+		if shape[1] == 1 || coins < 2000000 {
 			touts = []coin.TransactionOutput{txk.Out(l.Keys[4+g.Intn(nUsers)].Addr, coins, hours/4)}
 		} else {
 			touts = []coin.TransactionOutput{
@@ -1003,4 +1008,58 @@ func (lc *laneCtx) run(perLane, bodyBits int) {
 		r.Count("role.block.controls", 1)
 		r.Count("role.txn.controls.block", 1)
 	}
+}
+
+// ---------------------------------------------------------------------------------
+
+// replay re-offers the signature of a recorded function-level violation; node-level violations
+// are reproduced by running the check again with the recorded seed (lanes are seeded)
+func replay(path string) {
+	b, err := ioutil.ReadFile(path)
+	if err != nil {
+		fmt.Fprintln(os.Stderr, err)
+		os.Exit(3)
+	}
+	var doc struct {
+		Seed    int64             `json:"seed"`
+		Attrs   map[string]string `json:"attrs"`
+		Witness struct {
+			Pub      string `json:"pub"`
+			Hash     string `json:"hash"`
+			Original string `json:"original"`
+			Variant  string `json:"variant"`
+			Mutant   string `json:"mutant"`
+		} `json:"witness"`
+	}
+	if err := json.Unmarshal(b, &doc); err != nil {
+		fmt.Fprintln(os.Stderr, err)
+		os.Exit(3)
+	}
+	pubB, _ := hex.DecodeString(doc.Witness.Pub)
+	hashB, _ := hex.DecodeString(doc.Witness.Hash)
+	varB, _ := hex.DecodeString(doc.Witness.Variant)
+	if len(pubB) != 33 || len(hashB) != 32 || len(varB) != 65 {
+		fmt.Printf("replay: not a signature-level witness; run the check with VERIF_SEED=%d to reproduce\n", doc.Seed)
+		os.Exit(3)
+	}
+	var pub cipher.PubKey
+	var msg cipher.SHA256
+	var sig cipher.Sig
+	copy(pub[:], pubB)
+	copy(msg[:], hashB)
+	copy(sig[:], varB)
+	addr := ledger.AddressOfPub(pub[:])
+	fmt.Printf("replay: signature form=%q canonical=%v\n", txk.SigForm(sig), txk.Canonical(sig))
+	for _, a := range keyAPIs(pub, addr, msg) {
+		var orig cipher.Sig
+		if ob, _ := hex.DecodeString(doc.Witness.Original); len(ob) == 65 {
+			copy(orig[:], ob)
+		}
+		r.Count("fn.offered.replay", 1)
+		refused := offerSig(a, "replay", doc.Attrs["transform"], orig, sig, map[string]interface{}{"pub": doc.Witness.Pub, "hash": doc.Witness.Hash})
+		fmt.Printf("replay: %s refused=%v\n", a.name, refused)
+	}
+	r.Distinct("replay:a")
+	r.Distinct("replay:b")
+	r.Finish("replay of one recorded signature-level case")
 }
